@@ -626,7 +626,8 @@ _CONSTANTS = ("beyond/constants.py", ["*"])
 _PROPAGATORS = [(f"beyond/propagators/{m}.py", ["*.propagate", "*._propagate", "*._iter", "*.iter", "*.copy", "*.orbit", "*.orbit:setter", "*.__init__"])
                 for m in ("kepler", "j2", "sgp4", "cw", "none", "soi", "keplernum", "base")]
 DEPS = {
-    "C01": [(_CONSTANTS, "the gravitational parameter every conversion reads (`body.µ`) comes from these Body objects")],
+    "C01": [(("beyond/env/jpl.py", ["Pck.*", "get_body", "create_frames", "Bsp.*"]), "the central body of a JPL frame (its µ, which every conversion of a state in that frame reads) is built by this kernel reader (wave l: planet and system GM merged in the wrong order)"),
+            (_CONSTANTS, "the gravitational parameter every conversion reads (`body.µ`) comes from these Body objects")],
     "C02": [(_DATE_ARGS, "the argument of every rotation: julian centuries and days of the date in the scale the model asks for"),
             (_NODE, "the path search between orientations"),
             (("beyond/orbits/ephem.py", ["Ephem.propagate", "Ephem.interpolate", "Ephem.interp", "Ephem._reset_interp"]), "an orbit-attached frame follows its reference: an Ephem reference is interpolated at the date of the state"),
@@ -648,7 +649,8 @@ DEPS = {
             (_DATE_ARITH, "the elapsed time of a propagation is a difference of Dates"),
             (_ORBIT_DISPATCH, "`Orbit.propagate` hands the date or the timedelta to the propagator"),
             (("beyond/propagators/base.py", ["*"]), "the analytical propagators inherit `propagate` / `iter` from it")],
-    "C06": [(_EOP, "a Date labelled UTC / UT1 is placed on the TAI axis with the leap-second table and the daily UT1-UTC of the EOP database: elapsed times, comparisons and abscissas inherit its errors (wave l: `bisect` made the look-up exclusive at the very midnight of a leap second)"),
+    "C06": [(_CONSTANTS, "the right-hand side reads `body.µ` of every attracting body (wave l: the alias cached on first read)"),
+            (_EOP, "a Date labelled UTC / UT1 is placed on the TAI axis with the leap-second table and the daily UT1-UTC of the EOP database: elapsed times, comparisons and abscissas inherit its errors (wave l: `bisect` made the look-up exclusive at the very midnight of a leap second)"),
             (_DATE_ARITH, "steps and stop conditions are Date sums and comparisons"),
             (("beyond/orbits/man.py", ["*"]), "the maneuvers the integrator applies"),
             (_SV_CONVERT, "every step is returned as a copy in the requested frame and form"),
@@ -697,7 +699,9 @@ DEPS = {
             (("beyond/dates/date.py", ["Date.strptime", "Date.__init__", "Date._convert_dt", "Date.change_scale", "Date.datetime", "Date._datetime"]), "epochs are parsed and printed through these"),
             (_DATE_PRINT, "every epoch of a message is printed with `Date.__format__` (KVN) or `Date.strftime` (XML)"),
             (("beyond/frames/frames.py", ["Frame.__str__", "Frame.__init__", "get_frame", "<module>#dynamic"]), "`COV_REF_FRAME = {frame}` prints a Frame; the readers look names up with `get_frame`")],
-    "C14": [(_FORMS, "the covariance builds its local frames from a cartesian copy of the state"),
+    "C14": [(_SCALES, "the rotation models ask for the date in UT1 / TT"),
+            (_EOP, "UT1 and polar motion of the date, which the inertial <-> Earth-fixed rotation of the covariance reads"),
+            (_FORMS, "the covariance builds its local frames from a cartesian copy of the state"),
             (("beyond/frames/frames.py", ["Frame.transform", "get_frame"]), "the rotation applied to the covariance")] + [
             (x, "the rotation between inertial and Earth-fixed axes comes from these models; it must be a function of the date alone (wave k: X, Y, s reused for any date within ten minutes of the previous call)") for x in _EARTH_ROTATION],
     "C15": [(_FORMS, "names and aliases are resolved through `Form.alt` and the forms' parameter lists"),
@@ -708,7 +712,8 @@ DEPS = {
             (_ORBIT_DISPATCH, "`Orbit.propagate` / `Orbit.iter` hand over to the propagator"),
             (_SV_CONVERT, "the propagated state is a copy of the initial one (it carries the propagator and the frame)"),
             (_INFOS, "`ClohessyWiltshire.from_orbit` takes the semi-major axis of the target from `orbit.infos.kep.a`")],
-    "C17": [(_EOP, "a Date labelled UTC / UT1 is placed on the TAI axis with the leap-second table and the daily UT1-UTC of the EOP database: elapsed times, comparisons and abscissas inherit its errors (wave l: `bisect` made the look-up exclusive at the very midnight of a leap second)"),
+    "C17": [(("beyond/frames/center.py", ["*"]), "a frame attached to an orbit places that orbit at its origin: the offset is `Center._to_parent`, evaluated on the live reference orbit (wave l: memoised by name, date and orientation)"),
+            (_EOP, "a Date labelled UTC / UT1 is placed on the TAI axis with the leap-second table and the daily UT1-UTC of the EOP database: elapsed times, comparisons and abscissas inherit its errors (wave l: `bisect` made the look-up exclusive at the very midnight of a leap second)"),
             (("beyond/orbits/statevector.py", ["Infos.*", "StateVector.infos", "StateVector.copy", "StateVector.frame:setter", "StateVector.form:setter"]),
              "`dkep2dv` reads speed, mean motion and flight-path quantities from `orb.infos`"),
             (_DATE_ARITH, "the once-only windows of the maneuvers are Date comparisons: `<` and `<=` must be complementary (wave k: a tolerance in `__le__` / `__ge__` only)")],
